@@ -242,11 +242,12 @@ def check_c07(prop, tier, seed, sd, t0):
                        'real Reader.Search calls (AllMatches and TopN large enough for everything): (a) small scope -- random samples of the 2^15 assignments of 3 terms to 5 documents '
                        'in 2 segments (split point and one pending deletion varied) x boolean shapes of depth <= 2 over term/match-all/match-none leaves with min-should 0..3; (b) corpora of '
                        '3..12 documents in 1..4 segments with pending deletions, two text fields (positions), numeric, date and keyword fields, query trees to depth 3 and width 12 over '
-                       'term, match and/or, (multi-)phrase with slop, prefix, wildcard, regexp, fuzzy (distance 0..2, prefix 0..2), term range, numeric range, date range, all, none, bool; '
+                       'term, match and/or, (multi-)phrase with slop, prefix, wildcard, regexp, fuzzy (distance 0..2, prefix 0..2), term range, numeric range, date range, geo bounding box (points on whole '
+                       'degrees, edges on half degrees, boxes crossing the date line), all, none, bool; '
                        'TLC evaluates Search!Eval for every logged (corpus, query) and compares with the ids really returned; distinct = distinct logged (query, result) lines',
                        ['the corpus logged is the corpus indexed (sq.Build)', 'text is analysed by the standard analyzer into the logged tokens (lower-case letters only)',
-                        'geo queries and float/boundary behaviour of numeric encodings are not covered (C10 is not applicable)'],
-                       extra_cov=lambda lines: dict(excluded_query_kinds=['geo distance', 'geo bounding box', 'geo polygon']))
+                        'geo distance / polygon queries and float/boundary behaviour of numeric and geo encodings are not covered (C10 is not applicable)'],
+                       extra_cov=lambda lines: dict(excluded_query_kinds=['geo distance', 'geo polygon']))
 
 
 def check_c09(prop, tier, seed, sd, t0):
@@ -309,9 +310,9 @@ MANIFEST_ENTRIES = {
             SEQ_NOTE, 'model_checking'),
     'C07': ('Search.tla gives the documented meaning of every covered query kind as a set of live documents (term, match and/or, phrase and multi-phrase with the slop path rule of '
             'search_phrase.go, prefix, wildcard, regexp subset, fuzzy = edit distance with transpositions + required prefix, term/numeric/date ranges with open ends, match-all/none, '
-            'boolean nesting with min-should); TLC checks boolean identities of the oracle on all small corpora (SearchMC). Code: the probe indexes generated corpora for real in the '
+            'geo bounding box incl. date-line crossing, boolean nesting with min-should); TLC checks boolean identities of the oracle on all small corpora (SearchMC). Code: the probe indexes generated corpora for real in the '
             'stated segment layout with pending deletions and runs generated query trees through Reader.Search with two collectors; SearchTrace evaluates Eval for every logged call '
-            'and reports missed / extra / deleted / duplicated documents. Geo queries are excluded.', '6 C07',
+            'and reports missed / extra / deleted / duplicated documents. Geo distance and polygon queries are excluded.', '6 C07',
             'TLA+ oracle (Search.tla) evaluated by TLC on every logged real Reader.Search call (SearchTrace) + TLC check of oracle identities', SEQ_NOTE, 'model_checking'),
     'C19': ('TLC: MergePlan.tla -- the contract PlanOK of one Plan call plus the arrive/delete/plan/execute dynamics quantified over EVERY planner that satisfies '
             'the contract and makes progress: at rest the mergeable population is within the (logarithmic) budget, every plan decreases a well-founded measure, '
